@@ -54,6 +54,11 @@ pub trait Fam {
     const DESC: &'static str;
     fn key<'a>(enc: &'a [u8]) -> <Self::K as Value>::SelfType<'a>;
     fn gen_key(rng: &mut Rng, page: usize) -> Vec<u8>;
+    /// the i-th of a family of long keys (about `len` bytes) that share a long common prefix, in
+    /// key order; None for key types that cannot be long
+    fn long_key(_i: u64, _len: usize) -> Option<Vec<u8>> {
+        None
+    }
 }
 
 pub struct FamU64;
@@ -79,6 +84,11 @@ impl Fam for FamBytes {
     const DESC: &'static str = "bytes";
     fn key<'a>(enc: &'a [u8]) -> &'a [u8] {
         enc
+    }
+    fn long_key(i: u64, len: usize) -> Option<Vec<u8>> {
+        let mut v = vec![0x61u8; len];
+        v.extend_from_slice(&(i as u16).to_be_bytes());
+        Some(v)
     }
     fn gen_key(rng: &mut Rng, page: usize) -> Vec<u8> {
         let mut v = vec![];
@@ -109,6 +119,11 @@ impl Fam for FamStr {
     const DESC: &'static str = "str";
     fn key<'a>(enc: &'a [u8]) -> &'a str {
         std::str::from_utf8(enc).unwrap()
+    }
+    fn long_key(i: u64, len: usize) -> Option<Vec<u8>> {
+        let mut s = "\u{e9}".repeat(len / 2);
+        s.push_str(&format!("{i:05}"));
+        Some(s.into_bytes())
     }
     fn gen_key(rng: &mut Rng, page: usize) -> Vec<u8> {
         let mut s = String::new();
@@ -521,6 +536,9 @@ fn exec_op<F: Fam>(t: &mut Tbl<'_, F>, req: &[&str]) -> String {
     }
 }
 
+/// emit an image after every commit (used for the tall-tree programs)
+pub static ALL_IMAGES: std::sync::atomic::AtomicBool = std::sync::atomic::AtomicBool::new(false);
+
 pub struct Cfg {
     pub page: usize,
     pub region: u64,
@@ -605,7 +623,7 @@ pub fn run_program<F: Fam>(prog: &[String], out: &mut Out) -> bool {
                         txn.commit().expect("commit");
                         shadow.committed = shadow.cur.clone();
                         out.line("tbl commit");
-                        if fnv64(&[prog[i - 1].as_bytes(), &i.to_le_bytes()]) % 3 == 0 {
+                        if ALL_IMAGES.load(std::sync::atomic::Ordering::Relaxed) || fnv64(&[prog[i - 1].as_bytes(), &i.to_le_bytes()]) % 3 == 0 {
                             emit_image::<F>(out, &backend, &cfg, &shadow, "commit");
                         }
                     } else {
@@ -769,6 +787,106 @@ pub fn gen_program<F: Fam>(rng: &mut Rng, thorough: bool) -> Vec<String> {
     prog
 }
 
+/// tall trees of long keys: branches with very few children, so that the rarely taken
+/// branch-collapse paths (a branch left with one child, merged into a sibling) are reached;
+/// removals touch one end, the other end, single leaves, and leave sibling leaves untouched
+pub fn gen_deep_program<F: Fam>(rng: &mut Rng) -> Option<Vec<String>> {
+    let page = *rng.pick(&[512usize, 512, 1024]);
+    let klen = *rng.pick(&[page / 3 - 8, page / 3 + 6, page / 4, page / 2 - 20]);
+    F::long_key(0, klen)?;
+    let region = (page as u64 * 128).max(65536);
+    let mut prog = vec![format!("cfg {} {page} {region} {}", F::DESC, rng.pick(&[0usize, 1 << 30]))];
+    let n = rng.range(5, 40);
+    let mut live: Vec<u64> = vec![];
+    prog.push("begin".into());
+    let mut order: Vec<u64> = (0..n).collect();
+    match rng.below(3) {
+        0 => {}
+        1 => order.reverse(),
+        _ => {
+            for i in (1..order.len()).rev() {
+                order.swap(i, rng.below(i as u64 + 1) as usize);
+            }
+        }
+    }
+    for i in &order {
+        prog.push(format!("insert {} p{}x{}", hex(&F::long_key(*i, klen).unwrap()), rng.pick(&[0usize, 3, 30]), i % 200));
+        live.push(*i);
+    }
+    live.sort_unstable();
+    prog.push("commit".into());
+    prog.push("dump".into());
+    for _ in 0..rng.range(1, 6) {
+        prog.push("begin".into());
+        let mut removed = vec![];
+        match rng.below(7) {
+            0 => {
+                for _ in 0..rng.range(1, 4).min(live.len() as u64) {
+                    prog.push("popfirst".into());
+                    removed.push(0usize);
+                }
+            }
+            1 => {
+                for _ in 0..rng.range(1, 4).min(live.len() as u64) {
+                    prog.push("poplast".into());
+                    removed.push(usize::MAX);
+                }
+            }
+            2 | 3 => {
+                // a run of adjacent keys starting at a random position
+                if !live.is_empty() {
+                    let start = rng.below(live.len() as u64) as usize;
+                    let cnt = rng.range(1, 4) as usize;
+                    for k in live.iter().skip(start).take(cnt) {
+                        prog.push(format!("remove {}", hex(&F::long_key(*k, klen).unwrap())));
+                    }
+                    for _ in 0..cnt.min(live.len() - start) {
+                        removed.push(start);
+                    }
+                }
+            }
+            4 => {
+                let m = rng.range(2, 4);
+                prog.push(format!("retain u u {m} {}", rng.range(1, m)));
+            }
+            5 => {
+                for i in 0..rng.range(1, 3) {
+                    let k = n + 100 + rng.below(50) + i;
+                    prog.push(format!("insert {} p5x1", hex(&F::long_key(k, klen).unwrap())));
+                }
+            }
+            _ => {
+                if !live.is_empty() {
+                    let k = *rng.pick(&live);
+                    prog.push(format!("remove {}", hex(&F::long_key(k, klen).unwrap())));
+                    removed.push(live.iter().position(|x| *x == k).unwrap());
+                }
+            }
+        }
+        for pos in removed {
+            if live.is_empty() {
+                break;
+            }
+            let p = if pos == usize::MAX { live.len() - 1 } else { pos.min(live.len() - 1) };
+            live.remove(p);
+        }
+        // point lookups into what is left (routing through the rebuilt branches)
+        for k in live.iter().take(3).chain(live.iter().rev().take(3)) {
+            prog.push(format!("get {}", hex(&F::long_key(*k, klen).unwrap())));
+        }
+        if let Some(k) = live.get(live.len() / 2) {
+            prog.push(format!("range i{} u fwd 3", hex(&F::long_key(*k, klen).unwrap())));
+        }
+        prog.push("len".into());
+        prog.push("commit".into());
+        if rng.chance(1, 3) {
+            prog.push("reopen".into());
+        }
+        prog.push("dump".into());
+    }
+    Some(prog)
+}
+
 /// systematic part: page 512, all insert/remove sequences over keys whose sizes sit on split/merge thresholds
 fn systematic(out: &mut Out, depth: usize) {
     // six keys, three value sizes chosen so that 2-3 entries fill a 512-byte page
@@ -835,6 +953,25 @@ pub fn run(args: &Args) {
     let mut rng = Rng::new(args.seed);
     out.comment(&format!("C04 table seed={} thorough={}", args.seed, args.thorough));
     systematic(&mut out, if args.thorough { 4 } else { 3 });
+    // tall trees of long keys
+    let deep = if args.thorough { 1200 } else { 120 };
+    ALL_IMAGES.store(true, std::sync::atomic::Ordering::Relaxed);
+    for n in 0..deep {
+        let mut r = rng.fork();
+        if n % 2 == 0 {
+            if let Some(p) = gen_deep_program::<FamBytes>(&mut r) {
+                out.begin_case("deep bytes");
+                let ok = run_program::<FamBytes>(&p, &mut out);
+                out.end_case(ok);
+            }
+        } else if let Some(p) = gen_deep_program::<FamStr>(&mut r) {
+            out.begin_case("deep str");
+            let ok = run_program::<FamStr>(&p, &mut out);
+            out.end_case(ok);
+        }
+        out.count("deep_programs");
+    }
+    ALL_IMAGES.store(false, std::sync::atomic::Ordering::Relaxed);
     let programs = if args.thorough { 2400 } else { 150 };
     for n in 0..programs {
         let mut r = rng.fork();
